@@ -124,6 +124,10 @@ class RunStream(C.Stream):
         project["nb_threads"] = rng.choice(list(self.threads))
         case = {"project": project, "strategy": rng.choice(list(self.strategies)), "gseed": rng.randrange(1 << 24),
                 "interrupt": None, "fault": None}
+        # one gated run in four holds EVERY task at its start (observe.run_project `start_gates`): the start order of the tasks of a
+        # batch is the gate strategy's choice (derived from gseed: no further draw, the generated stream is otherwise unchanged)
+        if case["strategy"] != "off" and case["gseed"] % 4 == 0:
+            case["start_gates"] = True
         if self.p_files and rng.random() < self.p_files:
             # as `lcc run --reporting json [junit] --save-report <expr>`: the real backends save the report during the run
             case["files"] = {"backends": list(self.file_backends), "saving": rng.choice(list(self.savings))}
@@ -155,7 +159,8 @@ class RunStream(C.Stream):
         files = case.get("files") or {}
         fkw = dict(file_backends=files.get("backends"), saving=files.get("saving")) if files else {}
         obs = O.run_project(case["project"], strategy=case["strategy"], gate_seed=case["gseed"],
-                            interrupt_at=case["interrupt"], backend_fault=case["fault"], listeners=case.get("listeners"), **fkw)
+                            interrupt_at=case["interrupt"], backend_fault=case["fault"], listeners=case.get("listeners"),
+                            start_gates=bool(case.get("start_gates")), **fkw)
         if ("C05" in self.oracles and not case["interrupt"] and not case["fault"]
                 and (case["project"]["nb_threads"] != 1 or case["strategy"] != "off")):
             base = O.run_project(dict(case["project"], nb_threads=1), strategy="off", **fkw)
@@ -227,6 +232,8 @@ class RunStream(C.Stream):
     def features(self, case, obs):
         f = list(G.features(case["project"]))
         f += ["n=%d" % case["project"]["nb_threads"], "strategy=" + case["strategy"], "outcome=" + sorted(obs["outcome"])[0]]
+        if case.get("start_gates"):
+            f.append("start-gates")
         if case["interrupt"]:
             f.append("interrupt-" + case["interrupt"][0] + ("-delivered" if any(r[0] == "interrupt" for r in obs["trace"]) else "-missed"))
         if case["fault"]:
@@ -258,8 +265,10 @@ class RunStream(C.Stream):
             yield dict(case, fault=None)
             if case["fault"]["k"] > 0:
                 yield dict(case, fault=dict(case["fault"], k=case["fault"]["k"] - 1))
+        if case.get("start_gates"):
+            yield dict(case, start_gates=False)
         if case["strategy"] != "off":
-            yield dict(case, strategy="off")
+            yield dict(case, strategy="off", start_gates=False)
         if case.get("files") and case["files"]["saving"] != "at_each_test":
             yield dict(case, files=dict(case["files"], saving="at_each_test"))
         if case.get("listeners") and len(case["listeners"]) > 2:
